@@ -64,7 +64,7 @@ PROPS["C06"] = dict(
     lean_props=["SeaQ.Props.C06", "SeaQ.Props.C06Stmt"],
     lean_obligations=[],
     technique="Lean 4 proof (mutual structural induction over condition trees, list induction over call histories, Kleene-logic case analysis) over a hand-written model of Condition::add/not/add_option/to_simple_expr and ConditionHolder::add_condition; model tied by comparing the parse tree of the rendered predicate with the model's expression on bounded-exhaustive and random histories; 3-valued truth-table oracle on the real crate",
-    level_text="Machine-checked proof, for every condition tree (any depth/width, every negate flag, empty groups, optional members) and every history of condition-adding calls, that what the holder renders is equivalent under SQL three-valued logic to the AND of the supplied conditions (any = OR, empty any = FALSE, all = AND, empty all = TRUE, negated = NOT), and that no predicate is rendered iff no condition was given. Every rewrite the builder performs while adding (single-member unwrapping, all+all merging, wrapping) is inside the theorem.",
+    level_text="Machine-checked proof, for every condition tree (any depth/width, every negate flag, empty groups, optional members) and every history of condition-adding calls, that what the holder renders is equivalent under SQL three-valued logic to the AND of the supplied conditions (any = OR, empty any = FALSE, all = AND, empty all = TRUE, negated = NOT), and that no predicate is rendered iff no condition was given. Every rewrite the builder performs while adding (single-member unwrapping, all+all merging, wrapping) is inside the theorem. Carried over to the statement renderer (Props/C06Stmt): for every condition tree and dialect the statement model's condition renderer is the expression renderer applied to to_simple_expr, which is the expression the abstract model evaluates.",
     level_note="Trusted: Lean kernel; the hand-written model of the five functions in src/query/condition.rs (modelled, not verified: tied by the differential run through 8 statement positions x 3 backends, comparing the *parse tree* of the rendered predicate under an independent SQL predicate parser with the model's tree); Kleene's K3 as the meaning of SQL AND/OR/NOT; the chain mode (doc-hidden and_or_where) is not modelled.",
     design_ref="§6 C06",
     scope="all condition trees x all call histories x all 3-valued assignments",
@@ -75,7 +75,7 @@ PROPS["C10"] = dict(
     lean_props=["SeaQ.Props.C10", "SeaQ.Props.C10Stmt"],
     lean_obligations=[],
     technique="Lean 4 proof (invariant by induction over call histories) over a hand-written state-machine model of InsertStatement::columns/values/select_from/or_default_values and the branch structure of prepare_insert_statement; model tied by ALL call histories up to length 4/5 plus random longer ones against the real crate (outcomes, == after rejection, INSERT shape parsed back from the SQL on 3 backends)",
-    level_text="Machine-checked proof, for every state and every row, that values()/select_from() succeed iff the lengths match, that a mismatch returns the error with both counts and leaves the state unchanged, that accepted rows are appended in call order and rejected rows leave no trace, and — by induction over arbitrary call histories — that every stored row matches the column list unless columns() is re-declared with a different count over stored rows (that exception is a recorded finding: rect_counterexample, reproduced on the real crate each run).",
+    level_text="Machine-checked proof, for every state and every row, that values()/select_from() succeed iff the lengths match, that a mismatch returns the error with both counts and leaves the state unchanged, that accepted rows are appended in call order and rejected rows leave no trace, and — by induction over arbitrary call histories — that every stored row matches the column list unless columns() is re-declared with a different count over stored rows (that exception is a recorded finding: rect_counterexample, reproduced on the real crate each run). Carried over to the statement renderer (Props/C10Stmt): the INSERT body the statement model writes is chosen exactly as the abstract branch function says, and under the invariant every VALUES tuple has as many expressions as the column list has names.",
     level_note="Trusted: Lean kernel; the hand-written model of the five builder calls and of the DEFAULT VALUES / VALUES / SELECT branch (modelled, not verified: tied exhaustively on all histories of length <= 4 (quick) / 5 (thorough) over 18 calls, on 3 backends); cells and columns are abstract ids. values_from_panic is values_panic repeated.",
     design_ref="§6 C10",
     scope="all call histories, all row lengths; full rectangularity only under NoRecount (finding)",
@@ -149,7 +149,7 @@ PROPS["C11"] = dict(
     lean_props=["SeaQ.Props.C11", "SeaQ.Props.C11Stmt"],
     lean_obligations=[],
     technique="Lean 4 proof over a model of the template loop (CustomWithExpr arm) and of inject_parameters on top of the C16 tokenizer model: step lemmas for every token situation, verbatim emission of everything that is not a bare mark (with C16 losslessness), and inject_parameters = inline form by induction over statement segments; models tied by structured template generation against cust_with_values (to_string and build) and inject_parameters on 3 backends; independent quote-aware specification as oracle",
-    level_text="Machine-checked: for every template and every value list, a token that is not a bare mark (in particular every quoted token, whatever marks it contains) is emitted unchanged; a doubled mark yields one literal mark; `?` takes the next value and `$n` the n-th without disturbing the positional counter; a template without bare marks renders as itself character for character; and for the positional backends inject_parameters over the token stream of a parameterised statement yields its inline form provided no literal token is a bare mark. The Postgres `$word` case is stated as what the code does (the word is swallowed) rather than hidden — it is one of four recorded findings.",
+    level_text="Machine-checked: for every template and every value list, a token that is not a bare mark (in particular every quoted token, whatever marks it contains) is emitted unchanged; a doubled mark yields one literal mark; `?` takes the next value and `$n` the n-th without disturbing the positional counter; a template without bare marks renders as itself character for character; and for the positional backends inject_parameters over the token stream of a parameterised statement yields its inline form provided no literal token is a bare mark. The Postgres `$word` case is stated as what the code does (the word is swallowed) rather than hidden — it is one of four recorded findings. Carried over to the statement renderer (Props/C11Stmt): for cust_with_values inside any statement the inline writer's text is renderInline of the abstract expansion and the parameterised writer binds exactly the designated values in order of appearance.",
     level_note="Trusted: Lean kernel; translator (tokenizer classes); the hand-written models of the template loop and of inject_parameters (compared with the crate on ~40k structured templates x value lists and on every (sql, values) pair build() produced); usize::parse modelled for ASCII digit strings with overflow = error. The numbered-placeholder variant of inject_inline (Postgres) is covered by the differential run and the oracle, not by a theorem.",
     design_ref="§6 C11",
     scope="all templates / token lists / value lists (step lemmas, verbatim theorem, inject_inline for positional backends)",
@@ -182,7 +182,7 @@ PROPS["C01"] = dict(
     level_text="Machine-checked for every piece list, hence for the rendering of every statement of the model (any nesting): (textP ps).values = parameter pieces in order; Safe ps -> segment(text) = piece-wise items, placeholders = expectedMarks n. render_safe / render_safe_user: for EVERY statement of the model (unbounded nesting, all five statement kinds, three dialects) whose caller-supplied pieces are individually well-formed (the renderer's own text is proved plain: renderer_text_plain; contentOK: no panic marker, representable inline constants, raw text (custom expressions / functions / operators / keywords) only when non-empty and free of quotes and marks, no CustomWithExpr template; bound values arbitrary) the rendering is Safe, so C01_all_statements holds with no Safe hypothesis. For statements with caller-supplied raw text Safe is evaluated by the model per generated case (plain raw text: must hold). The evidence counts how many generated cases meet the theorem's hypothesis.",
     level_note=_STMT_MODEL_NOTE,
     design_ref="§6 C01",
-    scope="all statements of the model without caller-supplied raw text (theorem, no Safe hypothesis); all piece lists under Safe; generated statements for the tie",
+    scope="all statements of the model whose caller-supplied raw text is plain and whose custom templates are lexically safe on their own (Template.ok; theorem, no Safe hypothesis); all piece lists under Safe; generated statements for the tie",
 )
 
 PROPS["C02"] = dict(
@@ -193,7 +193,7 @@ PROPS["C02"] = dict(
     level_text="Machine-checked: substitute d (textP ps).sql (values.map lit) = some (textI ps) for every Safe piece list (unbounded nesting); C02_all_statements: for every statement of the model without caller-supplied raw text (contentOK; bound values arbitrary) with no Safe hypothesis, via render_safe. Entry-point agreement, repeatability and non-modification are checked on every generated statement (differential / metamorphic, not a theorem). Execution of both forms on SQLite is part of C07.",
     level_note=_STMT_MODEL_NOTE,
     design_ref="§6 C02",
-    scope="all statements of the model without caller-supplied raw text (theorem, no Safe hypothesis); all piece lists under Safe; generated statements for the tie and the entry points",
+    scope="all statements of the model whose caller-supplied raw text is plain and whose custom templates are lexically safe on their own (Template.ok; theorem, no Safe hypothesis); all piece lists under Safe; generated statements for the tie and the entry points",
 )
 
 from stages import stage_c07
@@ -228,7 +228,7 @@ PROPS["C08"] = dict(
     lean_props=["SeaQ.Props.C08", "SeaQ.Props.C05Stmt"],
     lean_obligations=["SeaQ.Lemmas.Balance", "SeaQ.Lemmas.RenderBalance", "SeaQ.Lemmas.StmtPolicy"],
     technique="Lean 4 proofs over the statement rendering model: every statement of the model (all five kinds, any nesting, three dialects) is written with balanced parentheses and every clause of a SELECT is balanced on its own, so clause keywords stand at depth 0 (render_balanced, select_clauses_balanced: mutual structural induction over the 41 render functions); the rendering of a SELECT is the concatenation of a clause list whose tags are a sub-sequence of the grammar's clause sequence (each clause at most once, in grammar order, present iff given) for every statement without a named window, the MySQL UPDATE re-routing (condition once, as JOIN .. ON), dialect-only constructs (DISTINCT ON, DISTINCTROW, RETURNING, locking, enum casts, VALUES ROW); expressions inside statements: for every operator tree of any depth over arbitrary leaves the statement renderer writes exactly the tokens of C05's abstract printer under the parenthesis policy observed from the crate (stmt_prints_as_pratt: the renderer's own decisions equal the observed cells, a finite obligation re-decided by the kernel on every run), hence they re-parse to the tree that was built under each dialect's operator table (stmt_roundtrip_*); the model is tied to the crate by differential runs; that the flat text parses into these clauses is decided by a reference parser of each dialect's statement grammar (precedence tables of C05): the tree of the crate's text must equal the tree of an independent, fully explicit rendering of the same builder calls",
-    level_text="Machine-checked (model): balanced parentheses for every statement (given caller-supplied raw text balanced on its own, no template), clause list = rendering, clause order / uniqueness / presence for SELECT, re-routing and dialect exclusivity lemmas, operator trees inside statements re-parse to themselves (C05 carried over to the statement renderer). Validated on generated statements (MySQL, Postgres, SQLite as third leg): parse of inline and parameterised text under the dialect's reference grammar and tree equality with the explicit reference rendering. The grammars are the trusted specification (no MySQL / Postgres engine in the sandbox).",
+    level_text="Machine-checked (model): balanced parentheses for every statement (given caller-supplied raw text balanced on its own; custom templates included when each chunk is balanced on its own), clause list = rendering, clause order / uniqueness / presence for SELECT, re-routing and dialect exclusivity lemmas, operator trees inside statements re-parse to themselves (C05 carried over to the statement renderer). Validated on generated statements (MySQL, Postgres, SQLite as third leg): parse of inline and parameterised text under the dialect's reference grammar and tree equality with the explicit reference rendering. The grammars are the trusted specification (no MySQL / Postgres engine in the sandbox).",
     level_note=_STMT_MODEL_NOTE + " The reference grammar (harness/src/sqlparse.rs), the explicit reference renderer (harness/src/explicit.rs) and the operator levels of C05 are trusted specifications.",
     design_ref="§6 C08",
     scope="all statements of the model for the clause theorems; generated statements for parse / tree equality",
